@@ -131,6 +131,7 @@ class Explorer(Ctx):
         self.unknown = 0
         self.model = None
         self.pc = []
+        self.memo = {}
         self.exhaustive = False
 
     # -- variables ---------------------------------------------------------
@@ -171,10 +172,19 @@ class Explorer(Ctx):
     def decide(self, e):
         if e is True or e is False:
             return e
-        v = z3.is_true(self.model.eval(e, model_completion=True))
-        if not (z3.is_true(e) or z3.is_false(e)):
+        k = e.get_id()
+        v = self.memo.get(k)
+        if v is not None:
+            return v
+        if z3.is_true(e):
+            v = True
+        elif z3.is_false(e):
+            v = False
+        else:
+            v = z3.is_true(self.model.eval(e, model_completion=True))
             self.pc.append(e if v else z3.Not(e))
             self.literals += 1
+        self.memo[k] = v
         return v
 
     def choose(self, name, n):
@@ -235,6 +245,7 @@ class Explorer(Ctx):
                 break
             self.model = m
             self.pc = []
+            self.memo = {}
             Ctx.cur = self
             try:
                 vd = run(self)
